@@ -266,7 +266,7 @@ def match_known(known, sig):
 
 
 def write_replay(pid, seed, scenario, violation, out):
-    d = os.path.join(boot.VERIF, 'replays')
+    d = os.environ.get('VERIF_REPLAY_DIR') or os.path.join(boot.VERIF, 'replays')
     os.makedirs(d, exist_ok=True)
     sigslug = hashlib.sha256(violation['sig'].encode()).hexdigest()[:8]
     path = os.path.join(d, f'{pid}-{seed}-{sigslug}.json')
@@ -440,8 +440,9 @@ def run_check(pid, tier, base_seed=None, budget_s=None, workers=None, runs=None)
 
     wall = time.time() - t0
     ev = build_evidence(pid, mod, tier, base_seed, total, wall, search_wall, workers, reported, known_seen, harness_fail)
-    os.makedirs(os.path.join(boot.VERIF, 'evidence'), exist_ok=True)
-    with open(os.path.join(boot.VERIF, 'evidence', f'{pid}.json'), 'w') as f:
+    evdir = os.environ.get('VERIF_EVIDENCE_DIR') or os.path.join(boot.VERIF, 'evidence')
+    os.makedirs(evdir, exist_ok=True)
+    with open(os.path.join(evdir, f'{pid}.json'), 'w') as f:
         json.dump(ev, f, indent=1, default=str)
 
     zero = [p for p in getattr(mod, 'EXPECTED_PROBES', []) if not total['probes'].get(p)]
